@@ -248,11 +248,11 @@ def check_C04(ctx):
     paths = ctx.run_driver(b, 'hist', shards=16, timeout=1200)
     paths += ctx.run_driver(b, 'alias', shards=16, timeout=1200)
     # rationals, floats, random states, strings and streams (valid and invalid input) under the same heap accounting
-    for d, shards in [('c04_limbs', 8), ('c12', 4), ('c13', 4), ('c13s', 4), ('c19_hist', 4), ('c06_misc', 2), ('c06_mpz', 4), ('c17_stream', 8), ('c18_misc', 2)]:
+    for d, shards in [('hist_qf', 8), ('c04_limbs', 8), ('c12', 4), ('c13', 4), ('c13s', 4), ('c19_hist', 4), ('c06_misc', 2), ('c06_mpz', 4), ('c17_stream', 8), ('c18_misc', 2)]:
         paths += ctx.run_driver(b, d, shards=shards, timeout=900, tier='quick')
     # fence mode: every heap block between two inaccessible pages, alternately flush with the low or the high one: a read or write one limb
     # outside a block the library owns becomes a crash event
-    for d, shards in [('hist', 8), ('alias', 8), ('c04_limbs', 4), ('c06_mpz', 4)]:
+    for d, shards in [('hist', 8), ('hist_qf', 4), ('alias', 8), ('c04_limbs', 4), ('c06_mpz', 4)]:
         paths += ctx.run_driver(b, d, shards=shards, timeout=900, tier='quick', env={'HX_FENCE': '1'}, tag='-fence')
     ctx.validate(paths)
     if not q:
@@ -368,7 +368,7 @@ def check_C13(ctx):
     q = ctx.tier == 'quick'
     r = assume_model(ctx, 'MpfContract', {'P': 6 if q else 8}, timeout=3000)
     ctx.model_must_hold(r, what='(float accuracy/exactness predicates of SemF vs brute force on small dyadics)')
-    trace_drivers(ctx, [('c13', 16, 1500), ('c13s', 16, 1500), ('corners_f', 16, 1500), ('alias_qf', 4, 900)], pure_drivers=['c13', 'c13s'])
+    trace_drivers(ctx, [('c13', 16, 1500), ('c13s', 16, 1500), ('corners_f', 16, 1500), ('alias_qf', 4, 900), ('hist_qf', 8, 900)], pure_drivers=['c13', 'c13s'])
     return ctx.finish('model_checking',
         rule='R2: MpfContract checks the accuracy/exactness predicates the trace specification applies (Close, AccurateQuot, AccurateSqrt, CopyOf) against brute-force rational '
              'arithmetic on all small dyadics. R3/R1: add/sub/mul/div/sqrt and _ui forms, set_q/set_z/set_d, exact functions, comparisons and conversions for destination and operand precisions '
